@@ -47,6 +47,9 @@ for _p, _t in (("C19", "Four clauses: explicit panics documented/impossible/revi
                ("C10", "Totality clause only ('never panic'): the C19 rules over the call trees of the *_vartime combinations and verify_helper_vartime. Equality with the constant-time result is numeric: not decided."),
                ("C11", "Totality clause only ('return for every input scalar, without panicking'): the C19 rules over split_vartime / split_mu / split_theta / mul_divr_rounded / lagrange*. The split contract and termination are numeric: not decided.")):
     CLAIMED[_p] = dict(engine="totality", technique="enumeration of panic edges in MIR with interval / guard / loop-range discharge and reviewed tables", category="other", design_ref="DESIGN.md section 5", text=_t, note=_TOT_NOTE)
+_g("C17", "Two structural clauses: reset() re-establishes every field new() initialises (reviewed exceptions: configuration and dead-buffer fields) for all six hash context types; every public function named *reset* or documented as automatically resetting passes through reset on every path. Digest values, padding and chunking are numeric and not decided.", eng="hashreset", tech="field-coverage of reset via write summaries; must-pass-through on the CFG", ref="DESIGN.md section 6 (G7)", note="Assumes A1, A2 and the reviewed dead-field list in crrlverif/hashreset.py.")
+_g("C18", "Structural clauses: signature parity of every backend type's public API across build configurations (P1); consistent word-index / bit-offset splitting (P4); sibling functions of two backends with the same shape agree on the operands of every call (P5); masks, multiplexers, lookup scans and codec gates re-decided under each configuration (P3). Byte-identical arithmetic results are numeric and not decided.", eng="apiparity+maskdom+muxshape+gates", tech="API signature comparison and sibling-skeleton comparison across per-configuration MIR; re-run of structural rules per configuration", ref="DESIGN.md section 7.2", note="Assumes A1; tables/apiparity.json lists reviewed API exceptions. Configurations: quick = x64, w32, m51, clmul, +avx2/lzcnt; thorough adds zz32, no-std, aarch64, riscv64, i686.")
+_g("C20", "Structural core: control words are masks at every call site (K1) and predicates return masks (K2) by value-set abstract interpretation; every set_cond/cswap stores exactly MUX(ctl, own, other) for every limb, composites delegate field by field, select and set_condneg have the specified shape (K3); every constant-time lookup scans its whole table and does not truncate its index (K4). That iszero/equals decide mathematical equality is numeric and not decided.", eng="maskdom+muxshape", tech="value-set/interval/lane-mask abstract interpretation; Boolean truth-table equivalence of stored limb expressions; loop/stride coverage analysis", ref="DESIGN.md section 4", note="Assumes A1, A2; tables/masks.json lists the reviewed non-status functions and mask-by-range-invariant sites.")
 CLAIMED["C13"]["text"] += " Soundness gates: Some(..) only under strict r/R decoding, non-zero r and the point-equality check of the reconstructed signature; r never reduced."
 
 
@@ -83,6 +86,9 @@ def main():
             dict(name="consttab", path="crrlverif/consttab.py", serves_properties=["C04", "C13"], kind_free_text="constant tables vs independent reference arithmetic"),
             dict(name="taint/ctflow", path="crrlverif/taint.py", serves_properties=["C02"], kind_free_text="interprocedural label analysis over MIR"),
             dict(name="gates", path="crrlverif/gates.py", serves_properties=["C05", "C06", "C07", "C08", "C09", "C13", "C15", "C16"], kind_free_text="check facts that must reach results; LMS state machine"),
+            dict(name="maskdom/muxshape", path="crrlverif/maskdom.py", serves_properties=["C19", "C20", "C18"], kind_free_text="mask value sets, multiplexer truth tables, lookup scans"),
+            dict(name="apiparity", path="crrlverif/apiparity.py", serves_properties=["C18"], kind_free_text="API parity, bit addressing, sibling skeletons"),
+            dict(name="hashreset", path="crrlverif/hashreset.py", serves_properties=["C17"], kind_free_text="reset/new coverage, reset on finalise"),
             dict(name="totality", path="crrlverif/totality.py", serves_properties=["C10", "C11", "C15", "C19"], kind_free_text="panic edges, length/index obligations"),
         ],
         checks=checks,
